@@ -24,3 +24,15 @@ Print Assumptions C03_no_error_panic_escapes_an_entry_point.
 (* non-vacuity: the analysis is not trivially empty -- internal productions do let *Error panics out (to their callers' recover) *)
 Example C03_internal_functions_do_escape : smem "Parser.parseLit" escaping_now = true /\ smem "Parser.expect" escaping_now = true.
 Proof. vm_compute. auto. Qed.
+
+(* ---- termination of the type parser: the model of ParseType (Parse/TypeModel.v, the whole type grammar, tied to the real ParseType by the
+   correspondence of every run) never exhausts the fuel of its entry point: parseType's recursion and its two loops end after at most
+   2 * (number of tokens) + 2 calls, on EVERY token list -- sentences, near misses and garbage alike *)
+From Verif Require Import Parse.ExprModel Parse.TypeModel Parse.TypeProofs.
+Theorem C03_type_parser_terminates : forall ts, parse_type ts <> Fuel.
+Proof. exact parse_type_total. Qed.
+Print Assumptions C03_type_parser_terminates.
+
+Theorem C03_type_parser_fuel_bound : forall f ts, (length ts <= f)%nat -> PT (S f) ts <> Fuel.
+Proof. exact PT_total. Qed.
+Print Assumptions C03_type_parser_fuel_bound.
